@@ -84,10 +84,15 @@ func vC10(spec vSpec, maxSteps int, withSub bool) {
 			}
 			if len(conds) > 0 {
 				if l, isList := cur.([]interface{}); isList {
-					// member-wise vs whole-list replacement under sub-keys is not specified;
-					// whichever happens, the count must equal the number of values replaced
-					lists = append(lists, vListAddr{xm, k, append([]interface{}{}, l...)})
-					continue
+					vAssume(!vAmbiguousPred([]interface{}{x}, conds))
+					if !refPred(x, conds) {
+						// the holding node fails the conditions: member-wise replacement of the
+						// list is not specified; whatever happens, the count must equal the
+						// number of values replaced
+						lists = append(lists, vListAddr{xm, k, append([]interface{}{}, l...)})
+						continue
+					}
+					// the holding node satisfies the conditions: its value under k is replaced
 				}
 				vAssume(!vAmbiguousPred([]interface{}{x}, conds))
 				if !refPred(x, conds) {
